@@ -612,8 +612,13 @@ class TorConfig:
         self.post_bootstrap = defer.Deferred()
         if self.protocol:
             if self.protocol.post_bootstrap:
+                def protocol_failed(fail):
+                    self.post_bootstrap.errback(fail)
+                    # anyone else waiting on the protocol's Deferred
+                    # (another TorConfig, say) has to see this too
+                    return fail
                 self.protocol.post_bootstrap.addCallback(
-                    self.bootstrap).addErrback(self.post_bootstrap.errback)
+                    self.bootstrap).addErrback(protocol_failed)
             else:
                 self.bootstrap()
 
